@@ -21,6 +21,10 @@ import (
 	"github.com/bronlabs/bron-crypto/pkg/mpc/sharing/scheme/additive"
 )
 
+// maxShareholderID is the largest shareholder ID representable in the
+// bitset keys of ISN shares.
+const maxShareholderID = 64
+
 // Scheme implements the Ito-Saito-Nishizeki secret sharing scheme with
 // a monotone access structure represented via maximal unqualified sets.
 // Each share is a vector with one component per maximal unqualified set.
@@ -45,6 +49,13 @@ func NewFiniteScheme[E algebra.GroupElement[E]](
 ) (*Scheme[E], error) {
 	if ac == nil {
 		return nil, sharing.ErrIsNil.WithMessage("access structure is nil")
+	}
+	// Share components are keyed by bitset.ImmutableBitSet, a 64-bit mask that
+	// can only hold IDs in [1, 64] (and panics beyond).
+	for id := range ac.Shareholders().Iter() {
+		if id > maxShareholderID {
+			return nil, sharing.ErrArgument.WithMessage("shareholder ID %d exceeds %d", id, maxShareholderID)
+		}
 	}
 
 	sampler, err := newFiniteGroupElementSampler(g)
